@@ -452,7 +452,12 @@ class C17(Check):
         return with_die_kills(sc, ch)
 
     def oracle(self, sc, out, facts):
-        return O.check_C17(sc, out, facts)
+        vs = O.check_C17(sc, out, facts)
+        # "results of requested tasks are captured for the return value before release"
+        for v in O.check_C10(sc, out, facts):
+            if v['code'] in ('returned-set', 'value', 'raised-despite-continue'):
+                vs.append(O.V('C17', 'requested-result-not-captured', v['detail'], **v['sig']))
+        return vs
 
     def record(self, sc, out, vs, ch, extra=None):
         r = super().record(sc, out, vs, ch, extra)
@@ -488,7 +493,11 @@ class C16(Check):
 
     def gen(self, ch, tier):
         sc = gen_scenario(ch, backends=ALL_BACKENDS, cache='sometimes',
-                          types=[('TA', 3), ('TB', 2), ('TC', 2), ('TD', 2), ('TN', 2), ('TP', 5)])
+                          types=[('TA', 3), ('TB', 2), ('TC', 2), ('TD', 2), ('TN', 2), ('TP', 5), ('TR', 3)])
+        cfg = ch.stream('config')
+        if sc['backend'] in ('fork', 'spawn') and cfg.chance(1, 3):
+            # an earlier run of the same interpreter used the other process backend
+            sc['prelude'] = {'backend': 'spawn' if sc['backend'] == 'fork' else 'fork', 'max_workers': 2, 'n': 2}
         return sc
 
     def oracle(self, sc, out, facts):
@@ -585,10 +594,11 @@ class C16(Check):
         env = dict(os.environ)
         env['VERIF_REPO'] = REPO_DIR
         env['PYTHONPATH'] = VERIF_DIR
-        for backend in ('serial', 'fork', 'spawn'):
-            for mw in (('1', '2', 'none') if tier == 'thorough' else ('2', 'none')):
+        for backend_arg in ('serial', 'fork', 'spawn', 'fork+spawn', 'spawn+fork'):
+            backend = backend_arg.split('+')[-1]
+            for mw in (('1', '2', 'none') if tier == 'thorough' else (('2', 'none') if '+' not in backend_arg else ('2',))):
                 try:
-                    p = subprocess.run([sys.executable, '-m', 'simlab.realprobe', backend, mw], capture_output=True,
+                    p = subprocess.run([sys.executable, '-m', 'simlab.realprobe', backend_arg, mw], capture_output=True,
                                        text=True, timeout=120, env=env, cwd=VERIF_DIR)
                 except subprocess.TimeoutExpired:
                     vs.append(O.V('C16', 'real-probe-timeout', f'real {backend} run with max_workers={mw} did not finish in 120 s', backend=backend))
@@ -599,7 +609,7 @@ class C16(Check):
                     continue
                 n += 1
                 info = json.loads(line[0][6:])
-                samples.append({'real_probe': backend, 'max_workers': mw, 'first_result': info['results'][0]})
+                samples.append({'real_probe': backend_arg, 'max_workers': mw, 'first_result': info['results'][0]})
                 caller = info['caller_pid']
                 pids = [r['pid'] for r in info['results']]
                 for r in info['results']:
